@@ -317,3 +317,29 @@ def rule_ack_reaches_fire(ctx, a, cls, rule, regs, acks):
     if not seen:
         ctx.ob(rule, "%s no acknowledgement handler cancels a handle that already fired" % cls_short(cls.qual), True, nontrivial=False,
                where=cls.module.path, construct="%s/fired-handle/acks" % cls.qual)
+
+
+SESSION_REGS = ("windowPublish", "windowPubRelease", "windowSubscribe", "windowUnsubscribe", "queuePublishTx")
+
+
+def rule_hook_after_session(ctx, cat, rule, consequence):
+    """The application's onMqttConnectionMade hook may call subscribe() / unsubscribe() / publish().  The session code of the CONNACK
+    (purge on a clean session, resume on a persistent one) takes every entry of the subscribe / unsubscribe windows - and every publish
+    whose alarm is unset - for something an earlier connection left behind: it must have run before the hook does."""
+    from .common import cls_short, where, contexts
+    cq = cls_short(cat.cls.qual)
+    n = 0
+    for tr in contexts(cat):
+        if tr.kind != "NET" or tr.name != "CONNACK" or not tr.decode_ok:
+            continue
+        evs = list(tr.events)
+        hooks = [i for i, e in enumerate(evs) if e.kind == "CALLBACK" and e.a["name"] == "onMqttConnectionMade"]
+        for i in hooks:
+            n += 1
+            late = [e for e in evs[i + 1:] if (e.kind in ("UNREG", "LOOP") and (e.a.get("reg") in SESSION_REGS or any(
+                r in str(e.a.get("iter")) for r in SESSION_REGS))) or (e.kind == "WRITE" and any(r in str(e.a.get("data")) for r in SESSION_REGS))]
+            ctx.ob(rule, "%s the onMqttConnectionMade hook runs after the session purge / resume (%s)" % (cq, tr.label()), not late,
+                   where=where(evs[i]), function=evs[i].func, construct="%s/hook-before-session-code" % evs[i].func, nontrivial=False,
+                   msg="the application hook is called and the session code of the CONNACK runs after it (%s): %s" % (
+                       late[0].brief()[:90] if late else "", consequence), trigger=tr.label())
+    return n
